@@ -25,7 +25,9 @@ Definition run_ptr1 (op : list N) : list N :=
          else [0; 0; doff (s_HeaderSlice (s_HeaderWithLength H) (Arr T len)); 0; 0; 1; 8; 8; 1])
       else if form =? 4 then [0; 1; 0; 1; 0; doff T; 2; 1; 1; 1; 8; 8]
       else if form =? 5 then [0; 0; 1; 0; 1; doff H; 2; 1; 1; 1; 8; 8]
-      else if form =? 6 then [0; doff T; doff T; 1; 0; 0; 1]
+      (* the arc-swap glue: raw forms of Arc<T> and ThinArc, then the counts a value held by an ArcSwapAny and one more
+         handle shows once borrowing and owning loads have come and gone (2) and once the ArcSwapAny is gone (1) *)
+      else if form =? 6 then [0; doff T; doff T; 1; 0; 0; 1; 2; 1; 2; 1]
       else [2]
     | _, _ => [98]
     end
